@@ -68,8 +68,18 @@ impl Composer {
 
         // skip bits outside of argument `num_bits`
         let a_bit_iter = BitIterator8::new(self[a].to_bytes());
+        #[cfg(feature = "verif")]
+        let a_bit_iter = match crate::verif::host_view_bytes(a.index()) {
+            Some(bytes) => BitIterator8::new(bytes),
+            None => a_bit_iter,
+        };
         let a_bits: Vec<_> = a_bit_iter.skip(256 - num_bits).collect();
         let b_bit_iter = BitIterator8::new(self[b].to_bytes());
+        #[cfg(feature = "verif")]
+        let b_bit_iter = match crate::verif::host_view_bytes(b.index()) {
+            Some(bytes) => BitIterator8::new(bytes),
+            None => b_bit_iter,
+        };
         let b_bits: Vec<_> = b_bit_iter.skip(256 - num_bits).collect();
 
         //
